@@ -52,74 +52,104 @@ def classify_exc(e) -> str:
     return "crash:" + type(e).__name__
 
 
-def classify_gcc(out: str) -> str:
-    """class of the FIRST error/warning line of a gcc run"""
+def classify_gcc_line(l: str, out: str) -> str:
+    if "error:" not in l and "warning:" not in l:
+        return ""
+    msg = (l.split("error:")[-1] if "error:" in l else l.split("warning:")[-1]).strip()
+    if "incompatible type for argument" in msg:
+        # the note lines tell struct const variant vs pointer
+        if re.search(r"expected .struct exo_win_\w+c. but argument is of type .struct exo_win_\w+[0-9](?!c)", out):
+            return "const-window-arg"
+        if re.search(r"expected .(const )?\w+ ?\*. but argument is of type .struct exo_win_", out):
+            return "window-for-pointer"
+        if re.search(r"expected .struct exo_win_\w+. but argument is of type .(const )?\w+ ?\*", out):
+            return "pointer-for-window"
+        return "incompatible-arg"
+    if "array size missing" in msg or "storage size of" in msg:
+        return "unsized-array"
+    if "assignment to expression with array type" in msg or ("incompatible types when assigning" in msg and "*" in msg):
+        return "unsized-array-use"
+    if "read-only" in msg:
+        return "const-window-write"
+    if "incompatible-pointer-types" in msg or "incompatible pointer type" in msg:
+        return "incompatible-pointer"
+    if "discards" in msg and "qualifier" in msg:
+        return "discarded-qualifier"
+    if "implicit declaration" in msg:
+        return "implicit-decl"
+    if "makes integer from pointer" in msg or "makes pointer from integer" in msg:
+        return "int-conversion"
+    if "warning:" in l and "error:" not in l:
+        if re.search(r"unused|set but not used|Wunused", msg):
+            return ""  # -Wall noise that is not a validity problem
+        return "warning:" + "-".join(re.sub(r"[^a-z ]", "", msg.lower()).split()[:3])
+    return "other:" + "-".join(re.sub(r"[^a-z ]", "", msg.lower()).split()[:3])
+
+
+def classify_gcc(out: str) -> list:
+    """classes of all diagnostics of one case, in order of appearance, without duplicates"""
+    res = []
     for l in out.splitlines():
-        if "error:" not in l and "warning:" not in l:
-            continue
-        msg = l.split("error:")[-1] if "error:" in l else l.split("warning:")[-1]
-        msg = msg.strip()
-        if "incompatible type for argument" in msg:
-            # the note line tells struct const variant vs pointer
-            if re.search(r"expected .struct exo_win_\w+c. but argument is of type .struct exo_win_", out):
-                return "const-window-arg"
-            if re.search(r"expected .struct exo_win_\w+. but argument is of type .struct exo_win_\w+c.", out):
-                return "const-window-arg-rev"
-            if re.search(r"expected .(const )?\w+ ?\*. but argument is of type .struct exo_win_", out):
-                return "window-for-pointer"
-            if re.search(r"expected .struct exo_win_\w+. but argument is of type .(const )?\w+ ?\*", out):
-                return "pointer-for-window"
-            return "incompatible-arg"
-        if "array size missing" in msg or "storage size of" in msg:
-            return "unsized-array"
-        if "assignment of read-only location" in msg or "assignment of read-only" in msg:
-            return "const-window-write"
-        if "incompatible-pointer-types" in msg or "incompatible pointer type" in msg:
-            return "incompatible-pointer"
-        if "discards" in msg and "qualifier" in msg:
-            return "discarded-qualifier"
-        if "implicit declaration" in msg:
-            return "implicit-decl"
-        if "makes integer from pointer" in msg or "makes pointer from integer" in msg:
-            return "int-conversion"
-        if "unused variable" in msg or "unused-variable" in msg or "set but not used" in msg:
-            continue  # -Wall noise that is not a validity problem
-        if "warning:" in l and "error:" not in l:
-            words = re.sub(r"[^a-z ]", "", msg.lower()).split()[:3]
-            return "warning:" + "-".join(words)
-        words = re.sub(r"[^a-z ]", "", msg.lower()).split()[:3]
-        return "other:" + "-".join(words)
-    return ""
+        c = classify_gcc_line(l, out)
+        if c and c not in res:
+            res.append(c)
+    if "unsized-array" in res and "unsized-array-use" in res:
+        res.remove("unsized-array-use")
+    return res
 
 
-def run_gcc(workdir, cid, source, header, hname):
-    d = os.path.join(workdir, re.sub(r"[^A-Za-z0-9_]", "_", cid))
-    os.makedirs(d, exist_ok=True)
-    with open(os.path.join(d, hname), "w") as f:
-        f.write(header)
-    with open(os.path.join(d, "u.c"), "w") as f:
-        f.write(source)
-    with open(os.path.join(d, "h.c"), "w") as f:  # the header alone must be a valid translation unit too
-        f.write('#include "%s"\n#include "%s"\n' % (hname, hname))
-    outs, rc = [], 0
-    for unit in ("u.c", "h.c"):
+def run_gcc_batch(workdir, items, hname, header_too=True, batch=10):
+    """items: [(cid, source, header)] -> {cid: {"rc":…, "classes": [...], "out": text}}; one gcc driver call per
+    `batch` cases (diagnostics carry the file path, so they are split back per case)."""
+    dirs = {}
+    for cid, source, header in items:
+        dn = re.sub(r"[^A-Za-z0-9_]", "_", cid)
+        d = os.path.join(workdir, dn)
+        os.makedirs(d, exist_ok=True)
+        with open(os.path.join(d, hname), "w") as f:
+            f.write(header)
+        with open(os.path.join(d, "u.c"), "w") as f:
+            f.write(source)
+        with open(os.path.join(d, "h.c"), "w") as f:  # the header alone must be a valid translation unit too
+            f.write('#include "%s"\n#include "%s"\n' % (hname, hname))
+        dirs[dn] = cid
+    res = {cid: {"rc": 0, "classes": [], "out": ""} for cid, _, _ in items}
+    names = list(dirs)
+    for k in range(0, len(names), batch):
+        chunk = names[k:k + batch]
+        files = []
+        for dn in chunk:
+            files.append(dn + "/u.c")
+            if header_too:
+                files.append(dn + "/h.c")
         try:
-            p = subprocess.run(["gcc"] + GCC_FLAGS + ["-I", d, unit], cwd=d, capture_output=True, text=True, timeout=120)
-            r, o = p.returncode, p.stderr + p.stdout
+            p = subprocess.run(["gcc"] + GCC_FLAGS + files, cwd=workdir, capture_output=True, text=True, timeout=600)
+            out, rc = p.stderr + p.stdout, p.returncode
         except subprocess.TimeoutExpired:
-            r, o = 124, "gcc timeout"
-        rc = rc or r
-        outs.append(o)
-    out = "\n".join(outs)
-    cls = classify_gcc(out)
-    if rc != 0 and not cls:
-        cls = "other:rc%d" % rc
-    # keep the directory only when something was diagnosed
-    if not cls:
-        for fn in os.listdir(d):
-            os.unlink(os.path.join(d, fn))
-        os.rmdir(d)
-    return {"rc": rc, "class": cls, "out": out[:3000]}
+            out, rc = "", 124
+        if rc == 124:
+            for dn in chunk:
+                res[dirs[dn]].update(rc=124, classes=["other:gcc-timeout"], out="gcc timeout")
+            continue
+        cur = None
+        for l in out.splitlines():
+            m = re.match(r"(?:In file included from |\s+from )?([A-Za-z0-9_]+)/(?:u\.c|h\.c|%s)[:,]" % re.escape(hname), l)
+            if m and m.group(1) in dirs:
+                cur = dirs[m.group(1)]
+            if cur is not None:
+                res[cur]["out"] += l + "\n"
+    for dn, cid in dirs.items():
+        r = res[cid]
+        r["classes"] = r["classes"] or classify_gcc(r["out"])
+        if r["classes"]:
+            r["rc"] = r["rc"] or 1
+        r["out"] = r["out"][:3000]
+        d = os.path.join(workdir, dn)
+        if not r["classes"]:  # keep the directory only when something was diagnosed
+            for fn in os.listdir(d):
+                os.unlink(os.path.join(d, fn))
+            os.rmdir(d)
+    return res
 
 
 def annotate_progen(rng, src, uid):
@@ -196,7 +226,7 @@ def run_case(job, i):
     mod, err = progen.load_module(src, "c15")
     if mod is None:
         rec["load_err"] = err
-        return rec
+        return rec, None, None
     p = getattr(mod, top)
     # model input
     try:
@@ -217,26 +247,40 @@ def run_case(job, i):
         if cls.startswith("crash"):
             rec["impl"]["tb"] = traceback.format_exc()[-1200:]
         source = header = None
-    if source is not None and job.get("gcc"):
-        g = run_gcc(job["workdir"], cid, source, header, hname)
-        rec["gcc"] = g
-        if g["class"]:
-            rec["c"], rec["h"] = source, header
     rec["t"] = round(time.time() - t0, 3)
-    return rec
+    return rec, source, header
 
 
 def main():
     job = json.load(open(sys.argv[1]))
+    recs, togcc = [], []
+    gcc_limit = job.get("gcc_limit")
+    for i in range(job["start"], job["start"] + job["count"]):
+        try:
+            rec, source, header = run_case(job, i)
+        except BaseException as e:  # never lose a case silently
+            rec = {"id": "%s-%d-%d" % (job["stream"], job["seed"], i), "stream": job["stream"], "index": i,
+                   "worker_crash": "%s: %s" % (type(e).__name__, e), "tb": traceback.format_exc()[-1500:]}
+            source = header = None
+        recs.append(rec)
+        if source is not None and job.get("gcc") and (gcc_limit is None or len(togcc) < gcc_limit):
+            togcc.append((rec["id"], source, header))
+    if togcc:
+        t0 = time.time()
+        res = run_gcc_batch(job["workdir"], togcc, "c15.h", header_too=job.get("header_too", True))
+        texts = {cid: (s_, h_) for cid, s_, h_ in togcc}
+        for rec in recs:
+            if rec["id"] in res:
+                rec["gcc"] = res[rec["id"]]
+                if rec["gcc"]["classes"]:
+                    rec["c"], rec["h"] = texts[rec["id"]]
+        gt = time.time() - t0
+    else:
+        gt = 0.0
     with open(job["out"], "w") as out:
-        for i in range(job["start"], job["start"] + job["count"]):
-            try:
-                rec = run_case(job, i)
-            except BaseException as e:  # never lose a case silently
-                rec = {"id": "%s-%d-%d" % (job["stream"], job["seed"], i), "stream": job["stream"], "index": i,
-                       "worker_crash": "%s: %s" % (type(e).__name__, e), "tb": traceback.format_exc()[-1500:]}
+        for rec in recs:
             out.write(json.dumps(rec) + "\n")
-            out.flush()
+        out.write(json.dumps({"summary": True, "gcc_s": round(gt, 2), "n_gcc": len(togcc)}) + "\n")
 
 
 if __name__ == "__main__":
